@@ -26,6 +26,11 @@ def models(tier):
     # two connections have something for the node in the same instant: one merely makes it write, the other makes its reader close
     alpha += [("x", 0, "dwr", 1, "badlen"), ("x", 1, "dwr", 0, "badlen"), ("x", 0, "dwr", 1, "dpr")]
     out.append(monitors.ScenarioModel("inbound-up-to-3-connections", BASE, alpha, MONS, max_socks=3))
+    # the node's next write on a connection fails hard (EPIPE: the peer is gone but neither FIN nor RST has been seen)
+    alpha_w = [("accept",), ("tick", 1)]
+    for c in (0, 1):
+        alpha_w += [("m", c, "cer_p0"), ("m", c, "cer_p1"), ("wrerr", c), ("m", c, "dwr"), ("eof", c)]
+    out.append(monitors.ScenarioModel("hard-write-failures", BASE, alpha_w, MONS, max_socks=2))
     # a ready connection that is awaiting its DWA while other connections come and go; garbage that makes the reader close
     alpha = [("accept",), ("tick", 1), ("m", 0, "dwa"), ("m", 0, "badlen"), ("eof", 0)]
     for c in (1, 2):
@@ -37,7 +42,7 @@ def models(tier):
     ob["peers"][0].update({"ips": ["10.1.0.1"], "persistent": True, "reconnect_wait": 2})
     for plan in ("ok", "inprogress", "refused"):
         alpha = [("tick", 1), ("accept",), ("plan", "ok"), ("plan", "refused"), ("plan", "inprogress")]
-        alpha += [("m", 0, n) for n in ("cea_ok", "cea_3xxx", "cea_nohost", "dpr", "dwa")] + [("eof", 0), ("rst", 0), ("resolve", 0, True), ("resolve", 0, False)]
+        alpha += [("m", 0, n) for n in ("cea_ok", "cea_okcase", "cea_3xxx", "cea_nohost", "dpr", "dwa")] + [("eof", 0), ("rst", 0), ("resolve", 0, True), ("resolve", 0, False)]
         alpha += [("m", 1, n) for n in ("cer_p0", "cer_p1", "cea_ok", "dpr")] + [("eof", 1), ("resolve", 1, True)]
         out.append(monitors.ScenarioModel(f"outbound-persistent-start-{plan}", ob, alpha, MONS, max_socks=3, start_plan=[plan]))
     # second lifetime of a peer whose first connection is winding down after its DPR, while unrelated connections come and go
